@@ -94,7 +94,99 @@ theorem C10_older_copy_rejected_after_crashes (host : Host) (spec : List (List J
   have hr := C10_stale_rejected _ h x hx hfree hstale
   exact ⟨hstale, hr.1, hr.2.1, hr.2.2.1⟩
 
+/-! ## a writer killed INSIDE the write of a version file: the file is EMPTY
+
+`Model/ClusterCrash.lean`, `TSys` / `TOp` / `stepT`: `crash op k lockGone torn` with `torn = true` kills the process inside
+its `(k+1)`-th file write.  `_serialize_config_version` / `_serialize_job_status_version` truncate (`open(f, "w")`) and then
+write: the kill leaves the version file empty, and `int('')` makes every later read of it raise ValueError at the statement
+where an out-of-date handle gets its version mismatch. -/
+
+/-- The extension is conservative: a history of API calls and kills BETWEEN file writes runs in the extended system exactly
+    as in the system of the theorems above (same results, same state, no version file empty). -/
+theorem C10_torn_extension_conservative (s : Sys) (ops : List XOp) :
+    (runT (TSys.ofSys s) (ops.map TOp.ofX)).2 = (runX s ops).2 ∧
+    execT (TSys.ofSys s) (ops.map TOp.ofX) = TSys.ofSys (execX s ops) :=
+  ⟨runT_ofSys ops s, execT_ofSys ops s⟩
+
+/-- FAIL CLOSED, in ANY state (no hypothesis on the history, on who holds which copy, on the lock marker): while
+    `config_version.txt` is empty, no API call and no kill (torn or not) changes `cluster_config.json`, its presence, or the
+    number hidden behind the empty file, and the file stays empty; likewise `job_status.json` / `job_status_version.txt`.
+    In particular a handle whose copy is older than the contents cannot write it - and neither can anybody else, until the
+    file is rewritten behind the API (`forgeCfgVer` / `forgeJsVer`). -/
+theorem C10_empty_version_file_fails_closed (t : TSys) (op : TOp) (hnt : op.isTamper = false) :
+    (t.cfgVerTorn = true →
+      (stepT t op).1.cfgVerTorn = true ∧ (stepT t op).1.s.disk.cfg = t.s.disk.cfg ∧
+      (stepT t op).1.s.disk.cfgMissing = t.s.disk.cfgMissing ∧ (stepT t op).1.s.disk.cfgVer = t.s.disk.cfgVer) ∧
+    (t.jsVerTorn = true →
+      (stepT t op).1.jsVerTorn = true ∧ (stepT t op).1.s.disk.js = t.s.disk.js ∧
+      (stepT t op).1.s.disk.jsVer = t.s.disk.jsVer) := by
+  have h := stepT_failClosed t op hnt
+  constructor
+  · intro ht
+    obtain ⟨a0, a1, a2, a3⟩ := h.1 ht
+    exact ⟨a0, a1, a3, a2⟩
+  · intro ht
+    obtain ⟨a0, a1, a2⟩ := h.2 ht
+    exact ⟨a0, a1, a2⟩
+
+/-- … and therefore after every tamper-free continuation of any length -/
+theorem C10_empty_version_file_stays_closed (t : TSys) (ops : List TOp) (hnt : ∀ op ∈ ops, op.isTamper = false) :
+    (t.cfgVerTorn = true →
+      (execT t ops).cfgVerTorn = true ∧ (execT t ops).s.disk.cfg = t.s.disk.cfg ∧
+      (execT t ops).s.disk.cfgMissing = t.s.disk.cfgMissing) ∧
+    (t.jsVerTorn = true → (execT t ops).jsVerTorn = true ∧ (execT t ops).s.disk.js = t.s.disk.js) := by
+  have h := execT_failClosed ops t hnt
+  constructor
+  · intro ht
+    obtain ⟨a0, a1, _, a3⟩ := h.1 ht
+    exact ⟨a0, a1, a3⟩
+  · intro ht
+    obtain ⟨a0, a1, _⟩ := h.2 ht
+    exact ⟨a0, a1⟩
+
+/-- The exception of a read of the empty `config_version.txt` is ValueError, never the version mismatch: an API call that
+    reads it (`promote`, `load` with promotion, `demote`, `update`, `mark_complete`, `mark_canceled`, `prepare_for_resubmission`)
+    does not return `versionMismatch` while the file is empty. -/
+theorem C10_empty_version_file_no_mismatch (t : TSys) (op : Op) (hnt : op.isTamper = false) (ht : t.cfgVerTorn = true)
+    (hr : op.readsCfgVer = true) : (apiT t op).2 ≠ .err .versionMismatch := by
+  rw [apiT_api t op hnt]
+  exact tornRes_not_mismatch t op _ _ ht hr
+
 /-! ## non-vacuity -/
+
+/-- The torn promotion, one step further: the process on host 2 is killed INSIDE the write of `config_version.txt` (kill
+    point 0, torn): the file is empty.  Handle 1 (loaded before; submitter `none` in memory) dies in ValueError instead of
+    being promoted, a fresh handle likewise; `cluster_config.json` is the one the creator's demotion wrote. -/
+example :
+    (runT (TSys.ofSys (create 0 [([], false)] true))
+      [.api (.demote 0), .api (.load 1 1 false true), .crash (.load 2 2 true true) 0 true true,
+       .api (.promote 1), .api .breakMarker, .api (.load 3 1 true true), .api .breakMarker, .api .read]).2 =
+      [some .ok, some (.bool false), none, some (.err .valueError), some .ok, some (.err .valueError), some .ok, some .ok] ∧
+    (execT (TSys.ofSys (create 0 [([], false)] true))
+      [.api (.demote 0), .api (.load 1 1 false true), .crash (.load 2 2 true true) 0 true true]).cfgVerTorn = true ∧
+    (execT (TSys.ofSys (create 0 [([], false)] true))
+      [.api (.demote 0), .api (.load 1 1 false true), .crash (.load 2 2 true true) 0 true true,
+       .api (.promote 1), .api .breakMarker, .api (.load 3 1 true true)]).s.disk.cfg.submitter = none := by decide
+
+/-- a holder killed in `update_job_status` inside the write of `job_status_version.txt` (kill point 2: the config pair is
+    complete): the job-status pair is closed (`update_job_status` dies in ValueError even for a handle WITHOUT a job status -
+    the read precedes the attribute access -, `complete_hpc_job_id` likewise), the config pair stays writable (`mark_canceled`
+    by a fresh handle succeeds); rewriting the version file by hand ends the state.  A torn kill at a data-file write (kill
+    point 1) is the plain kill: no version file is empty. -/
+example :
+    (runT (TSys.ofSys (create 0 [([], false)] true))
+      [.api (.update 0 { submitted := [0], blocked := [], canceled := [], completed := [], hpcIds := [5], batchIdx := 2 }),
+       .crash (.update 0 { submitted := [], blocked := [], canceled := [], completed := [0], hpcIds := [5], batchIdx := 2 }) 2 true true,
+       .api (.load 1 1 false true), .api (.load 2 1 false false),
+       .api (.update 2 { submitted := [], blocked := [], canceled := [], completed := [], hpcIds := [], batchIdx := 2 }),
+       .api .breakMarker, .api (.completeHpcId 1 5), .api .breakMarker, .api (.markCanceled 1),
+       .api (.forgeJsVer 2), .api (.load 3 1 false true), .api (.completeHpcId 3 5)]).2 =
+      [some .ok, none, some (.bool false), some (.bool false), some (.err .valueError), some .ok, some (.err .valueError),
+       some .ok, some .ok, some .ok, some (.bool false), some .ok] ∧
+    (execT (TSys.ofSys (create 0 [([], false)] true))
+      [.api (.update 0 { submitted := [0], blocked := [], canceled := [], completed := [], hpcIds := [5], batchIdx := 2 }),
+       .crash (.update 0 { submitted := [], blocked := [], canceled := [], completed := [0], hpcIds := [5], batchIdx := 2 }) 2 true true]).jsVerTorn = true ∧
+    (execT (TSys.ofSys (create 0 [([], false)] true)) [.crash (.demote 0) 1 true true]).cfgVerTorn = false := by decide
 
 /-- The scenario of the torn promotion: the creator (host 0) demotes; handle 1 loads; a process on host 2 is killed
     between the two file writes of its promotion (version file written, config not; its lock marker reclaimed); handle 1
